@@ -3,6 +3,7 @@ CONSTANTS
   File <- FilesD
   FDataSeq <- DataD
   FOther <- OtherD
+  FSplit <- SplitD
   Caps <- GenCaps
 INVARIANT EmitFull
 CHECK_DEADLOCK FALSE
